@@ -38,6 +38,21 @@ def mask_sites(prog):
 def check_m1(ctx, config):
     prog = ctx.prog(config)
     wrappers, users = mask_sites(prog)
+    # M1w: every call of a mask primitive either installs a mask outright (SIG_SETMASK - judged on the paths below) or records the
+    # previous mask (non-NULL old set).  A SIG_BLOCK / SIG_UNBLOCK that does not record what was there cannot be undone exactly:
+    # a signal the caller had blocked comes back unblocked (or the reverse).
+    for pname in ("pthread_sigmask", "sigprocmask"):
+        for F, n in callsites(prog, pname):
+            how = const_of(prog, n["c"][1])
+            old = strip(n["c"][3])
+            old_null = old.get("null") or old.get("val") == 0 or expr_str(old) in ("NULL", "0", "((void *)0)")
+            ok = how == 2 or not old_null
+            if F.name in ("signal_mask",) and how is None:
+                continue         # the one wrapper hands `how` and `old` through; its callers are judged on the paths below
+            ctx.ob("C12.M1w", site_of(F, n), "a change of the thread's signal mask is either a SIG_SETMASK or records the previous mask, so "
+                   "that it can be restored exactly", ok, {"how": how, "old_set": expr_str(old)[:30]})
+    if wrappers - {"signal_mask"} and any(not o.ok for o in ctx.obs if o.rule == "C12.M1w"):
+        return None, None, None
     if wrappers != {"signal_mask"} or not users <= {"process_fork", "process_start"} or "process_fork" not in users:
         raise AnalysisBroken("C12.M1: signal-mask primitives are called from %s, whose callers are %s; the confirmed "
                              "table is signal_mask <- process_fork (/ process_start). Re-confirm the rule instances." % (sorted(wrappers), sorted(users)))
@@ -249,6 +264,8 @@ def check_m4(ctx, prog):
 
 def check(ctx):
     res, F, I = check_m1(ctx, "posix-mt")
+    if res is None:
+        return          # M1w already failed on a mask change this check has no table for
     check_m1(ctx, "posix-st")
     prog = ctx.prog("posix-mt")
     check_m2(ctx, prog, res, F)
